@@ -114,7 +114,8 @@ fn p_curve(c: &CurveH) -> Value {
     let ad = match c.ad() { ADOrder::Zero => 0, ADOrder::One => 1, ADOrder::Two => 2 };
     let probes: Vec<i64> = { let ds: Vec<i64> = c.nodes().iter().map(|(d, _)| nd(d)).collect(); vec![ds[0], ds[0] + 1, (ds[0] + ds[ds.len() - 1]) / 2, ds[ds.len() - 1] + 10] };
     let look: Vec<Value> = probes.iter().map(|x| match guard(|| c.value(&dn(*x))) { Outcome::Ok(v) => p_num(&v), Outcome::Panic(_) => json!({"k":"dead"}) }).collect();
-    json!({"nodes": nodes, "ad": ad, "id": c.id(), "interp": c.interpolation(), "ib": c.index_base().map(|x| json!([fj(x)])).unwrap_or(json!([])), "look": look})
+    json!({"nodes": nodes, "ad": ad, "id": c.id(), "interp": c.interpolation(), "ib": c.index_base().map(|x| json!([fj(x)])).unwrap_or(json!([])), "look": look,
+           "convention": format!("{:?}", c.convention()), "modifier": format!("{:?}", c.modifier())})
 }
 fn p_spline<T: Clone>(s: &PPSpline<T>, pj: impl Fn(&T) -> Value) -> Value {
     json!({"k": s.k(), "n": s.n(), "t": fvec(s.t()), "has_c": s.c().is_some(),
@@ -217,7 +218,10 @@ fn rand_curve(r: &mut Rng, i: usize) -> CurveH {
         _ => CalType::UnionCal(UnionCal::new(vec![rand_cal(r)], if r.coin() { Some(vec![rand_cal(r)]) } else { None })),
     };
     let ad = match r.below(3) { 0 => ADOrder::Zero, 1 => ADOrder::One, _ => ADOrder::Two };
-    CurveH::new(nodes, rules[i % 6], ad, "crv", Convention::Act365F, Modifier::ModF, cal, if r.coin() { Some(rand_pos(r)) } else { None }).unwrap()
+    // every day-count convention and every modifier (they are stored fields of a curve)
+    let conv = rateslib::verif::calendar_py::convention_new((r.below(11)) as u8).unwrap();
+    let modi = rateslib::verif::calendar_py::modifier_new((r.below(5)) as u8).unwrap();
+    CurveH::new(nodes, rules[i % 6], ad, "crv", conv, modi, cal, if r.coin() { Some(rand_pos(r)) } else { None }).unwrap()
 }
 fn rand_knots(r: &mut Rng, k: usize) -> Vec<f64> {
     let mut t: Vec<f64> = (0..(2 * k + r.below(5) as usize)).map(|_| rand_bits(r)).collect();
@@ -260,6 +264,22 @@ pub fn roundtrip(seed: u64, n: usize, out: &str) {
             let res = guard(|| cpy::modifier_pickle(&m));
             let (oc, same) = match res { Outcome::Ok(Ok((_, back))) => ("ok", back == m), Outcome::Ok(Err(_)) => ("load_err", false), Outcome::Panic(_) => ("load_panic", false) };
             o.emit(&ev(format!("rt/enum/Modifier/{}", i), "Modifier", "pickle", oc.into(), json!({"i": i, "s": cpy::modifier_str(m)}), Some(json!({"i": i, "s": cpy::modifier_str(m)})), Some(same)));
+        }
+    }
+    for i in 0..11u8 {
+        let c = cpy::convention_new(i).unwrap();
+        for fmt in ["json", "bincode"] {
+            let (oc, back) = via(&c, fmt);
+            let eq = back.as_ref().map(|b| *b == c);
+            o.emit(&ev(format!("rt/enum/Convention/{}/{}", i, fmt), "Convention", fmt, oc, json!({"name": format!("{:?}", c)}), back.as_ref().map(|b| json!({"name": format!("{:?}", b)})), eq));
+        }
+    }
+    for i in 0..5u8 {
+        let m = cpy::modifier_new(i).unwrap();
+        for fmt in ["json", "bincode"] {
+            let (oc, back) = via(&m, fmt);
+            let eq = back.as_ref().map(|b| *b == m);
+            o.emit(&ev(format!("rt/enum/Modifier/{}/{}", i, fmt), "Modifier", fmt, oc, json!({"name": format!("{:?}", m)}), back.as_ref().map(|b| json!({"name": format!("{:?}", b)})), eq));
         }
     }
     for nm in ["usd", "eur", "XAU", "Nok"] {
@@ -374,8 +394,8 @@ pub fn roundtrip(seed: u64, n: usize, out: &str) {
             let pdf = |c: &Value| c.clone();
             macro_rules! df {
                 ($interp:expr, $T:ty) => {{
-                    let c = CurveDF::try_new(nodes.clone(), $interp, "crv", Convention::Act365F, Modifier::ModF, Some(rand_pos(&mut r)), NamedCal::try_new("tgt").unwrap()).unwrap();
-                    let proj = |c: &CurveDF<$T, NamedCal>| { let ns: Vec<Value> = verif::curvedf_nodes(c).iter().map(|(d, v)| json!({"d": nd(d), "v": p_num(v)})).collect(); json!({"nodes": ns}) };
+                    let c = CurveDF::try_new(nodes.clone(), $interp, "crv", cpy::convention_new(r.below(11) as u8).unwrap(), cpy::modifier_new(r.below(5) as u8).unwrap(), Some(rand_pos(&mut r)), NamedCal::try_new("tgt").unwrap()).unwrap();
+                    let proj = |c: &CurveDF<$T, NamedCal>| { let ns: Vec<Value> = verif::curvedf_nodes(c).iter().map(|(d, v)| json!({"d": nd(d), "v": p_num(v)})).collect(); json!({"nodes": ns, "convention": format!("{:?}", verif::curvedf_convention(c)), "modifier": format!("{:?}", verif::curvedf_modifier(c))}) };
                     for fmt in ["json", "bincode"] {
                         let (oc, back) = via(&c, fmt);
                         let eq = back.as_ref().map(|b| guard(|| *b == c)).map(|g| matches!(g, Outcome::Ok(true)));
@@ -524,6 +544,24 @@ fn mutations(doc: &Value) -> Vec<(Vec<String>, String, String)> {
                     if let Some(x) = get_mut(&mut d, p) { *x = a.clone(); }
                     out.push((p.clone(), format!("reshape:{}", a), d.to_string()));
                 }
+            }
+        }
+        // an array emptied CONSISTENTLY: header `dim` all zeros together with `data` = []
+        if p.last().map(|l| l == "dim").unwrap_or(false) {
+            let (_, parent) = p.split_last().unwrap();
+            let mut d = doc.clone();
+            let mut done = false;
+            if let Some(Value::Object(m)) = get_mut(&mut d, parent) {
+                if let (Some(Value::Array(dim)), true) = (m.get("dim").cloned(), m.contains_key("data")) {
+                    if dim.iter().any(|x| x.as_u64().unwrap_or(0) > 0) {
+                        m.insert("dim".to_string(), Value::Array(dim.iter().map(|_| json!(0)).collect()));
+                        m.insert("data".to_string(), json!([]));
+                        done = true;
+                    }
+                }
+            }
+            if done {
+                out.push((p.clone(), "emptied".to_string(), d.to_string()));
             }
         }
         // retype / alter
